@@ -26,6 +26,7 @@ def run(ctx: Ctx) -> Result:
     _redis.run_seq(ctx, res, "c01r", {"C01"}, "any", 150, 3000, rng)
     _rabbit.run_seq(ctx, res, "c01q", {"C01"}, "any", 120, 2500, rng)
     _rabbit.consume_waiting_cuts(ctx, res)
+    _mem.consume_cancel_cuts(ctx, res)
     return res
 
 
